@@ -270,20 +270,30 @@ EXT_STATEMENTS = [("import", "os"), ("import", "handlers"), ("import", "topx.m")
 EXT_MAP = {"top": "rt", "proj": "pj", "sub": "sb", "subx": "elsewhere", "handlers": "hd", "topx": "tother", "m": "mm", "a": "aa"}
 
 
+# a package directly below the root whose name starts with the root's name, scanned as module_path,
+# with imports spelled relative to module_path's parent (src layout)
+EXT_LAYOUT2 = {"top/__init__.py": [], "top/topx/__init__.py": [], "top/topx/m.py": [], "top/topx/n.py": [], "top/topx/deep/__init__.py": [], "top/topx/deep/o.py": []}
+EXT_STATEMENTS2 = [("import", "topx.m"), ("from", "topx", ("m",)), ("import", "top.topx.m"), ("import", "topx.deep.o"), ("from", "topx.deep", ("o",)), ("import", "os")]
+
+
 def externals_part(res):
     viol = []
     base = scratch_dir("c14-ext")
     try:
-        for importer in ("top/proj/a.py", "top/proj/sub/m.py"):
+        for importer, layout, statements, mps in (
+            ("top/proj/a.py", EXT_LAYOUT, EXT_STATEMENTS, ("top", "top/proj", "top/proj/sub")),
+            ("top/proj/sub/m.py", EXT_LAYOUT, EXT_STATEMENTS, ("top", "top/proj", "top/proj/sub")),
+            ("top/topx/n.py", EXT_LAYOUT2, EXT_STATEMENTS2, ("top", "top/topx")),
+        ):
             for r in (1, 2):
-                for combo in itertools.combinations(EXT_STATEMENTS, r):
-                    files = dict(EXT_LAYOUT)
+                for combo in itertools.combinations(statements, r):
+                    files = dict(layout)
                     files[importer] = list(combo)
                     files2 = {ren_path(rel, EXT_MAP): [ren_fact(f, EXT_MAP) for f in fs] for rel, fs in files.items()}
                     b1, b2 = os.path.join(base, "one"), os.path.join(base, "two")
                     write_tree(b1, {rel: source(fs) for rel, fs in files.items()})
                     write_tree(b2, {rel: source(fs) for rel, fs in files2.items()})
-                    for mp in ("top", "top/proj", "top/proj/sub"):
+                    for mp in mps:
                         if not importer.startswith(mp + "/"):
                             continue
                         ext_names = ["os", "handlers", "topx", "x.y", "top.proj.subx"]
